@@ -214,7 +214,7 @@ package closest
 //@   loop 2:
 //@     invariant nQ == len(queries) && len(QChanArray) == nQ
 //@     invariant forall(k, 0, nQ, len(sent(QChanArray[k])) == 0)
-//@   before call:findClosestN#1: assert [worker.wiring] arg(0) == queries[i] && arg(1) == catchmentSize && arg(2) == maxdist && arg(3) == measure && arg(4) == QChanArray[i] && arg(5) == cOut
+//@   before call:findClosestN#1: assert [worker.wiring] arg(0) == queries[i] && arg(1) == catchmentSize && (arg(2) == maxdist || (isnan(arg(2)) && isnan(maxdist))) && arg(3) == measure && arg(4) == QChanArray[i] && arg(5) == cOut
 //@   loop 3:
 //@     invariant nQ == len(queries) && len(QChanArray) == nQ && len(sent(cSplitDone)) == 0 && targetCounter == range_i
 //@     invariant [fanout.all] forall(k, 0, nQ, len(sent(QChanArray[k])) == range_i)
